@@ -12,11 +12,11 @@ PROP = {
     "rule": "consts suite: a case is a session run by the real interpreter under 4 configurations (cache on/off x registers on/off) and by the Lean "
             "evaluator model (cache on/off): input 0 binds a constant (names FOO, AB_1, Z9, K) to a value of one of 11 kinds (int, float, bool, string, nil, "
             "small/large array, small/large map, function, nested large containers); every mutation attempt is followed by an input holding the bare name "
-            "(read probe). 20 syntactic kinds of attempt (= and :=, ++/-- postfix and prefix, N[i]=v, N.k=v, del(N[i]), del(N.k), integer and list loop variable, "
-            "named-function and lambda parameter, func N(){}, same-value writes, self operations, writes through a copy/argument/element, del(N), del(N) then "
-            "rebinding) with 77 variants, in 9 contexts (top level, lambda call, named function, loop body, if, nested functions, loop in function, uncalled lambda). "
+            "(read probe). 21 syntactic kinds of attempt (= and :=, ++/-- postfix and prefix, N[i]=v, N.k=v, del(N[i]), del(N.k), integer and list loop variable, "
+            "named-function and lambda parameter, func N(){}, same-value writes, writes of a Cmp-equal value with another element type, self operations, writes through a copy/argument/element, del(N), del(N) then "
+            "rebinding) with 80 variants, in 9 contexts (top level, lambda call, named function, loop body, if, nested functions, loop in function, uncalled lambda). "
             "Families: every variant x context x type as a single attempt (plus a joined-input rendering); every ordered pair of kinds on every type; every ordered "
-            "triple of the 14 core kinds on int/large array/large map (thorough: of all 20 kinds on all types, and every 4-sequence of the core kinds); random "
+            "triple of the 14 core kinds on int/large array/large map (thorough: of all 21 kinds on all types, and every 4-sequence of the core kinds); random "
             "sequences of <= 3 (thorough <= 4) attempts with random variant, context, type, name and partition of the attempts over inputs (4 partitions incl. one "
             "input and a function body). Statement: in every configuration, from the first dump of the globals binding a constant N, every later dump binds N to "
             "the same typed value, until an input whose syntax tree contains del(N); a read probe evaluates to that value or to an error. A difference from the "
